@@ -1,3 +1,45 @@
+//! Verification drivers (see /verif/DESIGN.md).
+pub mod client;
+pub mod ctx;
+pub mod drivers;
+pub mod env;
+pub mod gen;
+pub mod honest;
+pub mod project;
+pub mod sim;
+pub mod world;
+
+use std::collections::HashMap;
+
+/// `harness <driver> key=value ...`; traces go to the file given by `out=`.
 pub fn main() {
-    println!("harness skeleton");
+    let args: Vec<String> = std::env::args().skip(1).collect();
+    if args.is_empty() {
+        eprintln!("usage: harness <driver> [key=value ...]");
+        std::process::exit(2);
+    }
+    let driver = args[0].clone();
+    let mut kv: HashMap<String, String> = HashMap::new();
+    for a in &args[1..] {
+        if let Some((k, v)) = a.split_once('=') {
+            kv.insert(k.to_owned(), v.to_owned());
+        }
+    }
+    // the client logs a lot; keep it quiet unless asked
+    if std::env::var("RUST_LOG").is_ok() {
+        let _ = env_logger::try_init();
+    }
+    // panics of the code under test are caught and logged as data; keep stderr readable
+    if std::env::var("VERIF_PANIC_TRACE").is_err() {
+        std::panic::set_hook(Box::new(|_| {}));
+    }
+    let code = drivers::run(&driver, &kv);
+    std::process::exit(code);
+}
+
+pub fn arg_u64(kv: &HashMap<String, String>, k: &str, d: u64) -> u64 {
+    kv.get(k).and_then(|v| v.parse().ok()).unwrap_or(d)
+}
+pub fn arg_str(kv: &HashMap<String, String>, k: &str, d: &str) -> String {
+    kv.get(k).cloned().unwrap_or_else(|| d.to_owned())
 }
